@@ -443,3 +443,16 @@ def r8(ctx, R):
             same_stmt_ok = all(any(cfgf.dominates(r_, p_) for r_ in rn) for p_ in pn)
         ok = (max(res) < min(post) or (max(res) == min(post) and same_stmt_ok)) and (not rcv or max(rcv) <= max(res))
         R.check(ok, f'{cn}.it_check :: receive -> residual -> post_iteration callbacks', w, 'the residual statement precedes (dominates) every post_iteration emission', {'residual at statement': res, 'receive at': rcv, 'post_iteration at': post})
+
+
+@rule('C03', 'C03.R9', '"after at least one sweep" is not vacuous: the predicate accepts residual <= restol only if iter > 0 or sweep > 0, so the sweep counter must be 0 when a block starts (a start value > 0 lets a step finish at iteration 0 without any sweep)', floor=3)
+def r9(ctx, R):
+    repo = ctx.repo
+    for rel, cn in ((NONMPI, 'controller_nonMPI'), (MPI, 'controller_MPI'), (PARADIAG, 'controller_ParaDiag_nonMPI')):
+        fn = repo.func(rel, f'{cn}.restart_block')
+        w = f'{rel}:{cn}.restart_block'
+        R.fn(w)
+        vals = [ast.unparse(s.value) for s in ast.walk(fn) if isinstance(s, ast.Assign) and ast.unparse(s.targets[0]).endswith('.status.sweep')]
+        if not vals:
+            raise AnalysisError(f'{w}: no initialisation of status.sweep found')
+        R.check(vals == ['0'], f'{cn}.restart_block :: the sweep counter starts at 0', w, '<level>.status.sweep = 0', vals)
